@@ -1633,7 +1633,7 @@ pub proof fn lemma_raf_done(m0: EMap, mid: EMap, m1: EMap, bv: VNum, size: u64, 
                     __vx_ep0, __vx_rp0, __vx_rfee0, __vx_rpl0, __vx_st0, expiring_power, rescheduled_power, rescheduled_daily_fee@, __vx_rpl, sectors_total@);
                 if gep(g0) > new_quantized_expiration { assert(hits(g0).to_set().contains(hits(g0)[0])); }
             }
-//@ before "if ! sectors_total . is_empty ()"
+//@ afterloop 0
         let ghost __vx_mid = self.amt.view();
         let ghost __vx_st = sectors_total@;
 //@ end
